@@ -24,7 +24,7 @@ import (
 	"sync"
 )
 
-var c01Hazards = []string{"pap-effect", "unused-binder", "generic-union-match", "unit-typevar"}
+var c01Hazards = []string{"pap-effect", "unused-binder", "generic-union-match", "unit-typevar", "interp-block-start"}
 
 type c01Run struct {
 	c        *Ctx
@@ -185,6 +185,7 @@ func (r *c01Run) shrink(pc *progCase, class string) *progCase {
 	opts := r.prof.checkOpts()
 	opts.AllowUnused = pc.P.Hazard == "unused-binder"
 	opts.AllowUnitTypeVar = pc.P.Hazard == "unit-typevar"
+	opts.AllowInterpStart = pc.P.Hazard == "interp-block-start"
 	opts.AllowExtPartial = true
 	if Check(pc.P, opts) != nil {
 		return pc
@@ -324,6 +325,9 @@ func runC01(c *Ctx) {
 		addCase(p, fmt.Sprintf("corpus:%d", i))
 	}
 	n := c.Pick(240, 12000)
+	if v := os.Getenv("VH_N"); v != "" {
+		fmt.Sscan(v, &n)
+	}
 	// generation in parallel, reproducibly: one forked stream per chunk
 	chunk := 50
 	nchunks := (n + chunk - 1) / chunk
@@ -538,7 +542,7 @@ func c01Replay(r *c01Run) {
 		if err != nil {
 			panic(err)
 		}
-		Check(p, CheckOpts{AllowExtPartial: true, AllowUnused: true, AllowUnitTypeVar: true})
+		Check(p, CheckOpts{AllowExtPartial: true, AllowUnused: true, AllowUnitTypeVar: true, AllowInterpStart: true})
 	} else {
 		p = &Prog{RawFo: doc.Replay.Source, RawOut: doc.Replay.Expected, Main: blockOf(eUnit())}
 	}
